@@ -21,7 +21,7 @@ FLAVOURS = ["plain"] * 6 + ["limit", "limit", "timed", "uniq"]
 
 def bus_cases(tier, rnd):
     cases = list(ag.scenarios()) + list(ag.uniq_scenarios()) + load_corpus()
-    n = 150 if tier == "quick" else 6000
+    n = 150 if tier == "quick" else 4000
     for i in range(n):
         fl = rnd.choice(FLAVOURS)
         cases.append(("gen%d-%s" % (i, fl),) + ag.gen_history(rnd, fl))
@@ -165,7 +165,7 @@ def run_bus_part(ctx, rnd):
 
 def run_parser_part(ctx, rnd):
     rep, tier, info = ctx["rep"], ctx["tier"], ctx["info"]
-    n_shell, n_desk = (12000, 12000) if tier == "quick" else (400000, 400000)
+    n_shell, n_desk = (12000, 12000) if tier == "quick" else (300000, 300000)
     shells = list(af.SHELL_FIXED) + [af.gen_shell(rnd) for _ in range(n_shell)]
     desks = list(af.DESK_FIXED) + [af.gen_desk(rnd, {b"Name": b"t.N1", b"Exec": b"/bin/x 'a b'", b"User": b"root"}) for _ in range(n_desk)]
     for c in range(256):                                    # every byte as key character, section character, value byte
@@ -207,7 +207,7 @@ def run_helper_part(ctx, rnd):
     if not os.path.exists(helper_exe):
         rep.violation("dbus-daemon-launch-helper-for-tests was not built", {"names": "build"}, found_input=False)
         return 0, 0, {}, []
-    n = 2500 if tier == "quick" else 120000
+    n = 2500 if tier == "quick" else 80000
     stub = b"@STUB@"
     cases = []
     fixed_file = af.SEC + b"\nName=%s\nExec=@STUB@ a 'b c'\nUser=root\n"
